@@ -50,6 +50,8 @@ type Scenario struct {
 	// PatchPodMeta: the canary strategy patches the label track=canary onto the canary pods while the user's pods and
 	// the stable Service's selector carry track=stable
 	PatchPodMeta bool
+	// CustomDR: the custom provider drives a second network object, an Istio DestinationRule, besides the VirtualService
+	CustomDR bool
 	// HPA: the user has a HorizontalPodAutoscaler targeting the workload (blue-green releases disable and restore it)
 	HPA bool
 	// TRCR: traffic is not configured in the Rollout's strategy but by a separate TrafficRouting custom resource
@@ -259,6 +261,18 @@ func (sc *Scenario) Build(w *World) error {
 		if err := w.Raw.Create(ctx, NewVirtualService(ns)); err != nil {
 			return err
 		}
+		if sc.CustomDR {
+			dr := &unstructured.Unstructured{Object: map[string]interface{}{
+				"apiVersion": "networking.istio.io/v1beta1", "kind": "DestinationRule",
+				"metadata": map[string]interface{}{"namespace": ns, "name": AppName},
+				"spec": map[string]interface{}{"host": AppName,
+					"trafficPolicy": map[string]interface{}{"loadBalancer": map[string]interface{}{"simple": "ROUND_ROBIN"}},
+					"subsets":       []interface{}{map[string]interface{}{"name": "version-base", "labels": map[string]interface{}{"version": "base"}}}},
+			}}
+			if err := w.Raw.Create(ctx, dr); err != nil {
+				return err
+			}
+		}
 	}
 	if sc.TRCR {
 		ref := rolloutsv1alpha1.TrafficRoutingRef{Service: AppName, GracePeriodSeconds: sc.Grace}
@@ -333,6 +347,9 @@ func (sc *Scenario) Rollout() *rolloutsv1beta1.Rollout {
 	case "custom":
 		trs = []rolloutsv1beta1.TrafficRoutingRef{{Service: AppName, GracePeriodSeconds: sc.Grace,
 			CustomNetworkRefs: []rolloutsv1beta1.ObjectRef{{APIVersion: "networking.istio.io/v1alpha3", Kind: "VirtualService", Name: AppName}}}}
+		if sc.CustomDR {
+			trs[0].CustomNetworkRefs = append(trs[0].CustomNetworkRefs, rolloutsv1beta1.ObjectRef{APIVersion: "networking.istio.io/v1beta1", Kind: "DestinationRule", Name: AppName})
+		}
 	}
 	switch sc.Style {
 	case "bluegreen":
